@@ -187,9 +187,9 @@ def run(ctx):
         if v.kind == "call" and v.d["term"].get("name") in ("new", "default") and not v.kids:
             ctx.ok("C02.R4", f, "sd_jwt_payload-init", "empty initialiser", line=line)
             continue
-        dec_sites = set((n.fn.name, n.d["bb"]) for n in dec_nodes)
+        dec_sites = set(n.fn.orig_key(n.d["bb"]) for n in dec_nodes)
         root = common._outcome_root(peel_proj(v.kids[0])) if v.kids else None
-        if v.kind == "field" and v.d.get("name") == "claims" and root is not None and root.kind == "call" and (root.fn.name, root.d["bb"]) in dec_sites:
+        if v.kind == "field" and v.d.get("name") == "claims" and root is not None and root.kind == "call" and root.fn.orig_key(root.d["bb"]) in dec_sites:
             nclaims += 1
             ctx.ok("C02.R4", f, "sd_jwt_payload-from-decode", "written from `.claims` of the signature-checked decode's Ok value", line=line)
             continue
